@@ -360,6 +360,16 @@ def check_wls_case(ctx, c, opts, known_weights=None, compare_full=True):
     else:
         Xm, ym, wm = model_rows_dense(m)
         bad, first = match_rows(Xm, ym, wm, cap["X"], cap["y"], cap["w"])
+        if bad and not c.double:
+            # the model carries the recorded defect C01-weights-transposed (`codeWeightOrder`); a source in which the weights are
+            # attached to their own observations corresponds to the model without that flag — no alarm for a repaired tree
+            m2 = run_model(ctx, c, code_weight_order=False, **fix)
+            if m2 is not None:
+                X2, y2, w2 = model_rows_dense(m2)
+                bad2, _ = match_rows(X2, y2, w2, cap["X"], cap["y"], cap["w"])
+                if not bad2:
+                    m, Xm, ym, wm, bad = m2, X2, y2, w2, 0
+                    ctx.count("single-ended weights attached to their own observations (recorded defect absent in this source)")
         if bad:
             ctx.mismatch("Calib.system rows (X, y, w)", desc, dict(unmatched=bad, first=first), "see replay")
         act = m["active"]
